@@ -36,7 +36,7 @@ class BuilderWorld(World):
     )
 
     def runs(self, prop, tier):
-        return {"quick": 5000, "thorough": 150000}[tier]
+        return {"quick": 20000, "thorough": 300000}[tier]
 
     def rule(self, prop):
         return ("cases = seeded call histories on one csr.Builder; non-trivial = at least one "
